@@ -1,32 +1,18 @@
 (* The single entry point of the extracted model:  api cmd args.
-   Command numbers are mirrored in /verif/harness/api.py. *)
-From Coq Require Import ZArith QArith List Bool.
-From Labella Require Import Extract.Codec Text.Utils.
-Import ListNotations.
+   Command ranges (mirrored in harness/props/*.py):
+     1..9 text utils (C20)   10..99 TeX (C19)   100..199 time (C15-C18)
+     200..299 linear scale (C12-C14)   300..399 layout (C01-C04, C06)
+     400..499 VPSC solver (C05)   500..599 rendering/timeline (C07-C11) *)
+From Coq Require Import ZArith List.
+From Labella Require Import Extract.Codec Extract.ApiText Extract.ApiTex Extract.ApiTime
+  Extract.ApiScale Extract.ApiLayout Extract.ApiVpsc Extract.ApiRender.
 Open Scope Z_scope.
 
-Definition e_nlist (l : list N) : list Z := e_list e_n l.
-
-(* 1: int2name i -> letters *)
-Definition api_int2name (a : list Z) : list Z :=
-  match d_n a with
-  | Some (i, _) => match int2name_opt i with Some s => 1 :: e_nlist s | None => [0] end
-  | None => bad_input
-  end.
-(* 2: hex colour conversions: code -> ok r g b | rgbstr | html *)
-Definition api_hex (a : list Z) : list Z :=
-  match d_list d_n a with
-  | Some (code, _) =>
-      match hex2rgb code, hex2rgbstr code with
-      | Some (r, g, b), Some s => [1; Z.of_N r; Z.of_N g; Z.of_N b] ++ e_nlist s ++ e_nlist (hex2html code)
-      | _, _ => [0]
-      end
-  | None => bad_input
-  end.
-
 Definition api (cmd : Z) (a : list Z) : list Z :=
-  match cmd with
-  | 1 => api_int2name a
-  | 2 => api_hex a
-  | _ => bad_input
-  end.
+  if cmd <? 10 then api_text cmd a
+  else if cmd <? 100 then api_tex cmd a
+  else if cmd <? 200 then api_time cmd a
+  else if cmd <? 300 then api_scale cmd a
+  else if cmd <? 400 then api_layout cmd a
+  else if cmd <? 500 then api_vpsc cmd a
+  else api_render cmd a.
